@@ -280,7 +280,7 @@ func c09Run(raw json.RawMessage) (res Result, err error) {
 	fourH := in.Tf == "4H"
 
 	// ---- property oracle on the implementation's outputs.
-	// Part A (what no known finding excuses): the query succeeds unless 4H; exactly the index-0 rows
+	// Part A (what no known finding excuses): the query succeeds; exactly the index-0 rows
 	// are missing; every row untouched by F2/F3 is returned with its quantised time and its payload;
 	// those rows appear in time order.  Part B: the full property.  A failure of A is never classified.
 	rl := int(st.Vrl) + 8
@@ -303,8 +303,6 @@ func c09Run(raw json.RawMessage) (res Result, err error) {
 		}
 	}
 	switch {
-	case o.Code == 1 && fourH:
-		detailB = "the query over all time is rejected: " + o.Msg
 	case o.Code != 0:
 		detailA = fmt.Sprintf("the query over all time failed (code %d): %s", o.Code, o.Msg)
 	case len(got) != len(written)-nIdx0:
@@ -363,15 +361,13 @@ func c09Run(raw json.RawMessage) (res Result, err error) {
 	case detailB != "":
 		res.Holds, res.Detail = false, detailB
 		switch {
-		case fourH:
-			res.Class = "timeframe-4H-looked-up-as-2H"
 		case f2:
 			res.Class = "daily-jan1-index0"
 		case f3:
 			res.Class = "cross-year-merge"
 		}
 	}
-	res.InDomain = !fourH && !f1 && !f2 && !f3 && o.Code == 0
+	res.InDomain = !f1 && !f2 && !f3 && o.Code == 0
 	res.Nontrivial = res.InDomain && nrows >= 2
 	res.Tags = append(res.Tags, fmt.Sprintf("rows=%d", bucket(nrows)), fmt.Sprintf("years=%d", len(st.Files)),
 		fmt.Sprintf("slots=%d", bucket(o.Slots)), fmt.Sprintf("code=%d", o.Code))
